@@ -21,7 +21,8 @@ var tableFuncs = map[string]LGFunction{
 
 func tableSort(L *LState) int {
 	tbl := L.CheckTable(1)
-	sorter := lValueArraySorter{L, nil, tbl.array}
+	// sort the list t[1..#t], not the trailing nils the array part may still hold
+	sorter := lValueArraySorter{L, nil, tbl.array[:tbl.Len()]}
 	if L.GetTop() != 1 {
 		sorter.Fn = L.CheckFunction(2)
 	}
